@@ -269,6 +269,29 @@ fn mask(s: &str) -> String {
     out
 }
 
+/// `dump` with every `{1, 0, 2}` (Debug of a HashSet of numbers) sorted, so that two objects
+/// with the same content give the same text.
+fn canon_dump<T: fmt::Debug>(t: &T) -> String {
+    let s = dump(t);
+    let mut out = String::with_capacity(s.len());
+    let mut rest = s.as_str();
+    while let Some(i) = rest.find('{') {
+        out.push_str(&rest[..=i]);
+        let tail = &rest[i + 1..];
+        match tail.find(['{', '}']) {
+            Some(j) if tail.as_bytes()[j] == b'}' && !tail[..j].is_empty() && tail[..j].chars().all(|c| c.is_ascii_digit() || c == ',' || c == ' ') => {
+                let mut nums: Vec<u64> = tail[..j].split(',').filter_map(|x| x.trim().parse().ok()).collect();
+                nums.sort();
+                out.push_str(&nums.iter().map(|n| n.to_string()).collect::<Vec<_>>().join(", "));
+                rest = &tail[j..];
+            }
+            _ => rest = tail,
+        }
+    }
+    out.push_str(rest);
+    out
+}
+
 fn dump<T: fmt::Debug>(t: &T) -> String {
     mask(&format!("{t:?}"))
 }
@@ -277,7 +300,7 @@ fn dump<T: fmt::Debug>(t: &T) -> String {
 // cases and outcomes
 // ------------------------------------------------------------------------------------------
 
-const PROTO: u32 = 4;
+const PROTO: u32 = 5;
 const VMAX: u64 = (1 << 62) - 1;
 const FAR: u64 = 1_000_000;
 const B: [u64; 13] = [
@@ -358,6 +381,10 @@ struct Outcome {
     state_changed: Option<bool>,
     /// frames the endpoint queued for the peer during the call
     emitted: Option<u64>,
+    /// ACK reaching below packet number 0, handlers without an error channel: did the call
+    /// change anything that the frame's well-formed prefix would not have changed?
+    #[serde(default)]
+    beyond_prefix: Option<bool>,
     note: String,
     setup_failed: Option<String>,
 }
@@ -619,6 +646,17 @@ fn exec_ack(
         out.note.push_str("the decoded ACK frame differs from the one encoded; ");
     }
     let legit: Option<AckFrame> = (a > 0).then(|| ack_frame_for(&(0..a).collect()));
+    // the longest well-formed prefix of the frame (None: even the first range reaches below 0)
+    let negative = ack_negative(largest, first, ranges);
+    let prefix: Option<AckFrame> = largest.checked_sub(first).map(|mut smallest| {
+        let mut keep = Vec::new();
+        for &(g, l) in ranges {
+            let Some(s) = smallest.checked_sub(g).and_then(|x| x.checked_sub(2)).and_then(|x| x.checked_sub(l)) else { break };
+            smallest = s;
+            keep.push((vi(g), vi(l)));
+        }
+        AckFrame::new(vi(largest), vi(delay), vi(first), keep, None)
+    });
     match target {
         Tgt::Sent => {
             let j = clock.enter(|| ArcSentJournal::<u32>::with_capacity(8));
@@ -671,56 +709,114 @@ fn exec_ack(
             out.state_changed = Some(before != dump(&j));
         }
         Tgt::Rcvd => {
-            let j = clock.enter(|| ArcRcvdJournal::with_capacity(8, Some(Duration::from_millis(25))));
-            clock.enter(|| {
-                if n > 0 {
-                    for pn in 0..3u64 {
-                        let d = j.decode_pn(PacketNumber::encode(pn, 0)).expect("fresh pn");
-                        j.on_rcvd_pn(d, true, PTO);
+            // two identical journals: `j` gets the frame, `twin` gets its well-formed prefix
+            let build = || {
+                let j = clock.enter(|| ArcRcvdJournal::with_capacity(8, Some(Duration::from_millis(25))));
+                clock.enter(|| {
+                    if n > 0 {
+                        for pn in 0..3u64 {
+                            let d = j.decode_pn(PacketNumber::encode(pn, 0)).expect("fresh pn");
+                            j.on_rcvd_pn(d, true, PTO);
+                        }
+                        // our packets 0..n each carried an ACK frame for 0..=2
+                        for k in 0..n {
+                            j.gen_ack_frame_util(k, 2, tokio::time::Instant::now(), 1200).expect("ack fits");
+                        }
                     }
-                    // our packets 0..n each carried an ACK frame for 0..=2
-                    for k in 0..n {
-                        j.gen_ack_frame_util(k, 2, tokio::time::Instant::now(), 1200).expect("ack fits");
-                    }
-                }
-            });
+                });
+                j
+            };
+            let (j, twin) = (build(), build());
             clock.advance(Duration::from_millis(10));
             if let Some(l) = &legit {
-                clock.enter(|| j.on_rcvd_ack(l));
+                clock.enter(|| {
+                    j.on_rcvd_ack(l);
+                    twin.on_rcvd_ack(l);
+                });
             }
             out.held = if n > 0 { 3 + n } else { 0 };
-            let before = dump(&j);
-            stage(out, cb, "call", || clock.enter(|| j.on_rcvd_ack(&frame)), |_| ("ok".into(), String::new()));
-            out.state_changed = Some(before != dump(&j));
+            let before = canon_dump(&j);
+            let returned = stage(out, cb, "call", || clock.enter(|| j.on_rcvd_ack(&frame)), |_| ("ok".into(), String::new())).is_some();
+            let after = canon_dump(&j);
+            out.state_changed = Some(before != after);
+            if returned && negative {
+                if let Some(p) = &prefix {
+                    clock.enter(|| twin.on_rcvd_ack(p));
+                }
+                let want = canon_dump(&twin);
+                out.beyond_prefix = Some(after != want);
+                if after != want {
+                    out.note.push_str(&format!("journal after the frame: {after} — after its well-formed prefix: {want}; "));
+                }
+            }
         }
         Tgt::Cc => {
             let fb = Arc::new(NullFeedback(AtomicU64::new(0)));
-            let trackers: [Arc<dyn Feedback>; 3] = [fb.clone(), fb.clone(), fb.clone()];
             // construction as in qconnection::path::Path::new
-            let cc = clock.enter(|| {
-                let pmtu = Arc::new(AtomicU16::new(qcongestion::MSS as u16));
-                let status = PathStatus::new(Arc::new(HandshakeStatus::new(false)), pmtu);
-                let cc = ArcCC::new(Algorithm::NewReno, Duration::from_millis(25), trackers, status, ArcSendWaker::new());
-                cc.grant_anti_amplification();
-                cc
-            });
+            let build = || {
+                let trackers: [Arc<dyn Feedback>; 3] = [fb.clone(), fb.clone(), fb.clone()];
+                clock.enter(|| {
+                    let pmtu = Arc::new(AtomicU16::new(qcongestion::MSS as u16));
+                    let status = PathStatus::new(Arc::new(HandshakeStatus::new(false)), pmtu);
+                    let cc = ArcCC::new(Algorithm::NewReno, Duration::from_millis(25), trackers, status, ArcSendWaker::new());
+                    cc.grant_anti_amplification();
+                    cc
+                })
+            };
+            let (cc, twin) = (build(), build());
             for pn in 0..n {
-                clock.enter(|| cc.on_pkt_sent(Epoch::Data, pn, true, 1200, true, None));
+                clock.enter(|| {
+                    cc.on_pkt_sent(Epoch::Data, pn, true, 1200, true, None);
+                    twin.on_pkt_sent(Epoch::Data, pn, true, 1200, true, None);
+                });
                 clock.advance(Duration::from_millis(1));
             }
             clock.advance(Duration::from_millis(10));
             if let Some(l) = &legit {
-                clock.enter(|| cc.on_ack_rcvd(Epoch::Data, l));
+                clock.enter(|| {
+                    cc.on_ack_rcvd(Epoch::Data, l);
+                    twin.on_ack_rcvd(Epoch::Data, l);
+                });
             }
             out.held = n;
             let lost_before = fb.0.load(Ordering::Relaxed);
-            stage(
+            let returned = stage(
                 out,
                 cb,
                 "call",
                 || clock.enter(|| cc.on_ack_rcvd(Epoch::Data, &frame)),
                 |_| ("ok".into(), format!("{} packets declared lost", fb.0.load(Ordering::Relaxed) - lost_before)),
-            );
+            )
+            .is_some();
+            if returned && negative {
+                // with an empty prefix the twin sees nothing: Largest Acknowledged itself is not a
+                // negative number, so that one field is left out of the comparison then
+                if let Some(p) = &prefix {
+                    clock.enter(|| twin.on_ack_rcvd(Epoch::Data, p));
+                }
+                let project = |c: &ArcCC| {
+                    let s = c.verif_snapshot();
+                    let d = &s.spaces[Epoch::Data];
+                    format!(
+                        "cwnd {} ssthresh {} in_flight {} rtt({:?} {:?} {:?} {:?} {}) largest_acked {:?} packets {:?}",
+                        s.cwnd,
+                        s.ssthresh,
+                        s.bytes_in_flight,
+                        s.latest_rtt,
+                        s.smoothed_rtt,
+                        s.rttvar,
+                        s.min_rtt,
+                        s.has_rtt_sample,
+                        if prefix.is_some() { d.largest_acked_packet } else { None },
+                        d.sent_packets.iter().map(|p| (p.packet_number, p.state)).collect::<Vec<_>>()
+                    )
+                };
+                let (got, want) = clock.enter(|| (project(&cc), project(&twin)));
+                out.beyond_prefix = Some(got != want);
+                if got != want {
+                    out.note.push_str(&format!("controller after the frame: {got} — after its well-formed prefix: {want}; "));
+                }
+            }
         }
     }
 }
@@ -1121,19 +1217,18 @@ fn expect(case: &Case) -> Expect {
             }
             // RFC 9000 §19.3.1: "If any computed packet number is negative, an endpoint MUST
             // generate a connection error of type FRAME_ENCODING_ERROR"
-            // The frame reader is the place where a peer's frame gets this verdict: a frame it
-            // rejects never reaches a handler (a value no peer can deliver is outside the
-            // property); if it lets the frame through, the handler has to produce the error.
+            // RFC 9000 §19.3.1: "If any computed packet number is negative, an endpoint MUST
+            // generate a connection error of type FRAME_ENCODING_ERROR". Such frames decode; the
+            // verdict is produced by update_largest in the Ack*Space call sequence.
             if ack_negative(*largest, *first, ranges) {
                 clauses.push("negative-packet-number");
                 e.must_err.push("FrameEncoding");
-                e.undecodable = true;
             }
             e.clause = if clauses.is_empty() { "valid".into() } else { clauses.join("+") };
             if *target != Tgt::Sent {
-                // on_rcvd_ack / cc.on_ack_rcvd return nothing: beyond the decoder's verdict only
-                // cost and panics are judged
-                e.must_err.retain(|k| *k == "FrameEncoding");
+                // on_rcvd_ack / cc.on_ack_rcvd have no error channel: cost, panics and "does not
+                // act on negative numbers" (Outcome::beyond_prefix) are judged
+                e.must_err.clear();
             }
         }
         Case::Pn { .. } => e.clause = "any".into(),
@@ -1366,6 +1461,12 @@ fn judge(case: &Case, res: &RunResult, profile: &str) -> (String, Vec<Viol>) {
     let class = format!("{}->{}", exp.clause, if final_result.starts_with("panic:") { "panic" } else { &final_result });
     if panicked {
         return (class, v);
+    }
+    if o.beyond_prefix == Some(true) {
+        v.push(Viol {
+            sig: format!("verdict/{sub}/acted-on-negative-packet-number"),
+            detail: format!("[{profile}] {case:?}: the frame reaches below packet number 0 and changed more than its well-formed prefix does: {}", o.note),
+        });
     }
     if !exp.must_err.is_empty() {
         let got_kind = final_result.strip_prefix("undecodable:").or(final_result.strip_prefix("err:"));
@@ -1993,6 +2094,8 @@ struct Stats {
     max_alloc: u64,
     classes: BTreeMap<String, u64>,
     acted_on_invalid: u64,
+    /// ACKs reaching below 0 whose effect was compared with the effect of their well-formed prefix
+    prefix_compared: u64,
     samples: Vec<Value>,
     /// (signature, order key, detail, replay)
     filed: Vec<(String, (u8, u64, u64, usize), String, Value)>,
@@ -2021,6 +2124,9 @@ fn account(sub: &str, seq: usize, item: &Item, res: &RunResult, stats: &mut Stat
                 if s.alloc <= bound {
                     stats.max_alloc_within_bound = stats.max_alloc_within_bound.max(s.alloc);
                 }
+            }
+            if o.beyond_prefix.is_some() {
+                stats.prefix_compared += 1;
             }
             if let Case::Stream { .. } = case {
                 if o.state_changed == Some(true) && o.stage("call").is_some_and(|s| s.result.starts_with("err:")) {
@@ -2123,19 +2229,30 @@ pub fn run(args: &Args) -> i32 {
     let mut report = Report::new(args, "exploration");
     let epoch = StdInstant::now();
     let deadline = epoch + Duration::from_secs(if args.thorough { 540 } else { 45 });
-    let prod = prod_exe();
+    let mut prod = prod_exe();
+    let mut prod_stale = None;
+    if let Some(p) = &prod {
+        // a binary built from an older c04.rs speaks another protocol version: do not use it
+        if let Err(e) = Worker::spawn(p) {
+            prod_stale = Some(e);
+            prod = None;
+        }
+    }
     let mut exes = vec![std::env::current_exe().expect("current_exe")];
     exes.extend(prod.clone());
     report.assume("the property is about frames a peer can deliver: every frame travels as wire bytes through the real FrameReader (1-RTT packet type) and only the decoded frame reaches a handler; a frame the reader rejects gets the verdict 'rejected by the decoder with <kind>' and is judged as such; ACK frames are built with AckFrame::new only to be written with the crate's writer (the decoded frame must equal it)");
     report.assume("cost bound per call: bytes allocated ≤ 64 KiB + 256 × (encoded frame bytes + records held); records held = packets in the journal / connection ids / streams created by the legitimate history; for a packet number the 'frame' is the smallest packet that carries it (25 bytes + pn)");
     report.assume("a case is 'far' if a numeric field exceeds what the endpoint holds by ≥ 10^6 (ACK Delay is a duration and relates to no record: not classified); far cases run only in child processes (lock-step batch children: RLIMIT_AS 2 GiB, 3 s watchdog per measured call, a child that never reached the call is retried once), all others in-process under catch_unwind with a 60 s hang monitor");
     report.assume("ACK handlers are driven separately in the order the per-space dispatcher uses: cc.on_ack_rcvd and rcvd_journal.on_rcvd_ack see every decodable ACK (validation comes later), the sent journal sees update_largest + the on_packet_acked loop of Ack*Space::recv_frame (ArcSentJournal<u32>, no qlog event)");
-    report.assume("verdicts are demanded only where RFC 9000 prescribes an error (§13.1, §19.3.1, §5.1.1, §19.15, §19.16, §4.6, §19.11, §4.1, §4.5, §19.6, §19.8); a stream index equal to the advertised count is C12's open finding and is not enumerated; spurious CONNECTION_ID_LIMIT errors are C14's; an invalid ACK that changes the received-packet journal before the (asynchronous) validation closes the connection is counted, not judged");
+    report.assume("verdicts are demanded only where RFC 9000 prescribes an error (§13.1, §19.3.1, §5.1.1, §19.15, §19.16, §4.6, §19.11, §4.1, §4.5, §19.6, §19.8); a stream index equal to the advertised count is C12's open finding and is not enumerated; spurious CONNECTION_ID_LIMIT errors are C14's; an ACK for never-sent numbers that changes the received-packet journal before the (asynchronous) validation closes the connection is counted, not judged; an ACK reaching below packet number 0 is judged at the sent journal (update_largest must return FRAME_ENCODING_ERROR, state unchanged) and, for on_rcvd_ack / cc.on_ack_rcvd (no error channel), by comparing with a twin object that received the frame's longest well-formed prefix (received journal: Debug dump; controller: cwnd, ssthresh, bytes in flight, RTT estimate, largest acked, per-packet state from verif_snapshot)");
     report.assume("stream endpoint: crate::pipe::Endpoint (real DataStreams + FlowController) with every receive limit 2^20 and 4 streams per direction; connection ids as in c14.rs; ArcCC as qconnection::path::Path::new builds it (NewReno, client, anti-amplification released)");
     report.notes.push(match &prod {
         Some(p) => format!("prod profile (wrap-around arithmetic) children used for ACK and packet-number cases: {}", p.display()),
         None => "prod profile binary target/prod/h-conn not present: ACK and packet-number cases ran in the checked profile only".to_string(),
     });
+    if let Some(e) = prod_stale {
+        report.notes.push(format!("the prod profile binary exists but was not usable ({e}); rebuild it with `cargo build --offline --profile prod -p h-conn`"));
+    }
     let t = args.thorough;
     let ack_rule = |what: &str| {
         format!(
@@ -2212,6 +2329,9 @@ pub fn run(args: &Args) -> i32 {
         extra.insert("max_alloc_bytes_any_call".into(), json!(st.max_alloc));
         extra.insert("max_alloc_bytes_within_bound".into(), json!(st.max_alloc_within_bound));
         extra.insert("outcome_classes".into(), json!(st.classes));
+        if s.name == "ack-rcvd" || s.name == "ack-cc" {
+            extra.insert("negative_range_acks_compared_with_their_well_formed_prefix".into(), json!(st.prefix_compared));
+        }
         if s.name == "streams" {
             extra.insert("rejected_frame_left_stream_table_changed_not_judged".into(), json!(st.acted_on_invalid));
         }
